@@ -246,9 +246,21 @@ func Project(r *rand.Rand, t *T, mode int) *T {
 				n.Fields = append(n.Fields[:at:at], append([]*F{add}, n.Fields[at:]...)...)
 			}
 		}
+		// now and then an unexported field that carries the json name of one of the writer's fields (kept or
+		// deleted): unexported fields never take part, whatever their tags say
+		if len(t.Fields) > 0 && r.IntN(3) == 0 {
+			src := t.Fields[r.IntN(len(t.Fields))]
+			if !src.Embedded && !src.Excluded() {
+				at := r.IntN(len(n.Fields) + 1)
+				add := &F{Go: "u", JSON: src.AvroName(), Excl: ExclUnexported, T: src.T}
+				n.Fields = append(n.Fields[:at:at], append([]*F{add}, n.Fields[at:]...)...)
+			}
+		}
 		// Go field names must be unique
 		for i, f := range n.Fields {
-			if !f.Embedded {
+			if f.Excl == ExclUnexported {
+				f.Go = fmt.Sprintf("q%d", i)
+			} else if !f.Embedded {
 				f.Go = fmt.Sprintf("Q%d", i)
 			}
 		}
